@@ -4,4 +4,5 @@ CONSTANTS
   MaxFields = 2
   MethodLists = "pairs"
   Exported = {FALSE}
+  Tagged = {TRUE}
 INVARIANTS TypeOK TwinSame GroupingIrrelevant OutputShape Export
